@@ -9,7 +9,8 @@ variable {T : Table}
 theorem rstopsB_iff : ∀ (e : Expr) (L : Int), rstopsB T e L = true ↔ RStops T e L
   | .un _ x, L => by simp [rstopsB, RStops, rstopsB_iff x L]
   | .bin _ _ r, L => by simp [rstopsB, RStops, rstopsB_iff r L]
-  | .lit _, _ | .name, _ | .paren _, _ | .dot _, _ | .idx _ _, _ | .call _ _, _ | .mcall _ _, _ => by
+  | .lit _, _ | .name, _ | .paren _, _ | .dot _, _ | .idx _ _, _ | .call _ _, _ | .mcall _ _, _
+  | .table _, _ | .closure _ _, _ => by
     simp [rstopsB, RStops]
 
 theorem isPrefixB_eq (e : Expr) : isPrefixB e = IsPrefix e := by cases e <;> rfl
@@ -70,6 +71,29 @@ theorem minParen_fits (hpos : ∀ op, op ≠ .OpNop → 0 < T.left op ∧ 0 ≤ 
     simp only [Valid] at h
     obtain ⟨a, b⟩ := wrapPrefix_ok _ (minParen_fits hpos hun p 0 (Int.le_refl 0) h.1)
     simp only [minParen, Fits]; exact ⟨a, b, minParenArgs_fits hpos hun as h.2⟩
+  | .table fs, _, _, h => by
+    simp only [Valid] at h
+    simp only [minParen, Fits]; exact minParenFields_fits hpos hun fs h
+  | .closure n va, _, _, _ => by simp [minParen, Fits]
+theorem minParenFields_fits (hpos : ∀ op, op ≠ .OpNop → 0 < T.left op ∧ 0 ≤ T.right op) (hun : 0 ≤ T.unaryPrio) :
+    ∀ (fs : Fields), ValidFields fs → FitsFields T (minParenFields T fs)
+  | .nil, _ => by simp [minParenFields, FitsFields]
+  | .cons f r, h => by
+    simp only [ValidFields] at h
+    simp only [minParenFields, FitsFields]
+    exact ⟨minParenField_fits hpos hun f h.1, minParenFields_fits hpos hun r h.2⟩
+theorem minParenField_fits (hpos : ∀ op, op ≠ .OpNop → 0 < T.left op ∧ 0 ≤ T.right op) (hun : 0 ≤ T.unaryPrio) :
+    ∀ (f : Field), ValidField f → FitsField T (minParenField T f)
+  | .pos e, h => by
+    simp only [ValidField] at h
+    simp only [minParenField, FitsField]; exact minParen_fits hpos hun e 0 (Int.le_refl 0) h
+  | .named e, h => by
+    simp only [ValidField] at h
+    simp only [minParenField, FitsField]; exact minParen_fits hpos hun e 0 (Int.le_refl 0) h
+  | .keyed k e, h => by
+    simp only [ValidField] at h
+    simp only [minParenField, FitsField]
+    exact ⟨minParen_fits hpos hun k 0 (Int.le_refl 0) h.1, minParen_fits hpos hun e 0 (Int.le_refl 0) h.2⟩
 theorem minParenArgs_fits (hpos : ∀ op, op ≠ .OpNop → 0 < T.left op ∧ 0 ≤ T.right op) (hun : 0 ≤ T.unaryPrio) :
     ∀ (as : Args), ValidArgs as → FitsArgs T (minParenArgs T as)
   | .nil, _ => by simp [minParenArgs, FitsArgs]
@@ -98,6 +122,15 @@ theorem erase_minParen : ∀ (e : Expr) (limit : Int), erase (minParen T limit e
   | .idx p k, _ => by simp [minParen, erase, erase_wrapPrefix, erase_minParen p 0, erase_minParen k 0]
   | .call p as, _ => by simp [minParen, erase, erase_wrapPrefix, erase_minParen p 0, eraseArgs_minParenArgs as]
   | .mcall p as, _ => by simp [minParen, erase, erase_wrapPrefix, erase_minParen p 0, eraseArgs_minParenArgs as]
+  | .table fs, _ => by simp [minParen, erase, eraseFields_minParenFields fs]
+  | .closure n va, _ => by simp [minParen]
+theorem eraseFields_minParenFields : ∀ (fs : Fields), eraseFields (minParenFields T fs) = eraseFields fs
+  | .nil => by simp [minParenFields]
+  | .cons f r => by simp [minParenFields, eraseFields, eraseField_minParenField f, eraseFields_minParenFields r]
+theorem eraseField_minParenField : ∀ (f : Field), eraseField (minParenField T f) = eraseField f
+  | .pos e => by simp [minParenField, eraseField, erase_minParen e 0]
+  | .named e => by simp [minParenField, eraseField, erase_minParen e 0]
+  | .keyed k e => by simp [minParenField, eraseField, erase_minParen k 0, erase_minParen e 0]
 theorem eraseArgs_minParenArgs : ∀ (as : Args), eraseArgs (minParenArgs T as) = eraseArgs as
   | .nil => by simp [minParenArgs]
   | .cons e r => by simp [minParenArgs, eraseArgs, erase_minParen e 0, eraseArgs_minParenArgs r]
